@@ -203,6 +203,8 @@ def _compress(lines: List[int]) -> str:
 
 
 def run(repo: Repo, rep: Report, tier: str) -> None:
+    from sa.report import guarded as _guarded
+
     live = set(repo.import_closure(["generator.client_generator"]))
     rep.count("live_modules", len(live))
 
@@ -261,7 +263,7 @@ def run(repo: Repo, rep: Report, tier: str) -> None:
             rep.violation("R8.1", f"{sub} delegates", f"{w.fq}|no-delegate",
                           f"a path through the wrapper does not call {wname}: {cfg.describe_path(path or [])}", w.loc())
 
-    rule_registry_monotone(repo, rep, "R8.8")
+    _guarded(rep, rule_registry_monotone, repo, rep, "R8.8")
     # ---------------------------------------------------------------- R8.2 state ownership
     allowed_writers = {
         f"{UCD}:unified_cycle_check": "the gate itself",
@@ -607,7 +609,7 @@ def run(repo: Repo, rep: Report, tier: str) -> None:
 
 
     with_flatten_fallback(rep, repo.func("core.loader.schemas.extractor:build_schemas"), _r86)
-    rule_default_limit_fits_stack(repo, rep, "R8.10")
+    _guarded(rep, rule_default_limit_fits_stack, repo, rep, "R8.10")
 
 def _registration_rules(repo: Repo, rep: Report) -> None:
     """R8.7: every declared schema ends up registered (rules of C02/R2.6: registration on the way out of _parse_schema, no vetoing flag
